@@ -210,4 +210,18 @@ func init() {
 			{ID: "R05.2", Title: "no use of a value before the error returned with it was compared with nil (see C05)", Floor: 20, Run: ruleR052},
 		},
 	})
+	register(&Property{
+		ID:        "C15",
+		Technique: "constant propagation of the comment-skipping flag through the scanner's call sites, dominance and ordering checks inside peek, case-constant vs written-constant agreement of the escape and alias tables against reference tables taken from the property text, implicit-multiplication guard (R03.6)",
+		Explanation: "Decides the structural side of layout independence: comment skipping is off at every call made while the characters of one token are read and on at the two token boundaries; a cached '/' is re-examined, adjacent comments are skipped in a loop, the re-examination position lies behind the skipped comments, line breaks in block comments and between tokens are counted; " +
+			"the escape table of string literals and the typographic/superscript alias tables equal the documented ones; quoted identifiers are emitted without keyword/text-operator lookup; implicit '*' bookkeeping only in comfort mode. Not decided: AST invariance under re-spacing as such, comfort-mode juxtaposition semantics, line attribution in general.",
+		Rules: []*Rule{
+			{ID: "R15.1", Title: "comment skipping flag: off inside tokens, on at token boundaries, forwarded unchanged", Floor: 12, Run: ruleR151},
+			{ID: "R15.2", Title: "comment recognition: cached '/' re-examined, adjacent comments looped, snapshot behind comments, line breaks counted", Floor: 5, Run: ruleR152},
+			{ID: "R15.3", Title: "escape table of string literals equals the documented one", Floor: 1, Run: ruleR153},
+			{ID: "R15.4", Title: "typographic aliases, superscripts and their exclusion sets equal the documented tables", Floor: 3, Run: ruleR154},
+			{ID: "R15.6", Title: "quoted identifiers denote their exact content (no keyword / text operator lookup)", Floor: 1, Run: ruleR156},
+			{ID: "R03.6", Title: "implicit multiplication bookkeeping only in comfort mode (see C03)", Floor: 3, Run: ruleR036},
+		},
+	})
 }
